@@ -71,7 +71,7 @@ def cases(tier, seed):
     first = True
     for spec in _models(tier, seed):
         field = spec["field"]
-        jits = (False,) if tier == "quick" else (False, True)
+        jits = (False, True) if (tier != "quick" and _rs(spec) in ("full", "rankdef")) else (False,)
         for sig in (True, False):
             for linear in (True, False):
                 for jit in jits:
